@@ -200,6 +200,51 @@ pub fn run(ctx: &Ctx) -> Collector {
     col.evals_add(nbasis.load(Ordering::Relaxed));
     col.set("single_module_matrices", json!(nbasis.load(Ordering::Relaxed)));
     col.space(json!({"name": "single-module basis", "cases": nbasis.load(Ordering::Relaxed), "what": format!("one dark module on light and one light module on dark at every coordinate, versions {:?}", versions), "exhaustive": true, "wall_s": (t2.elapsed().as_secs_f64() * 100.0).round() / 100.0}));
+    // two-module toggles, each rendered right after a render of the all-light matrix of the same size on the same
+    // thread: a renderer that remembers its last output under a weak fingerprint of the matrix (parities, sums,
+    // folded words) returns the remembered text for a matrix whose changes cancel in the fingerprint
+    let t3 = std::time::Instant::now();
+    let pair_versions: Vec<usize> = if thorough { vec![1, 2, 3, 7, 14] } else { vec![1, 2, 7] };
+    let mut ptasks = vec![];
+    for &v in &pair_versions {
+        let n = 17 + 4 * v;
+        for d in [1usize, 2, 7, 8, 9, 16, 32, 64, n - 1, n, n + 1, 2 * n, 8 * n] {
+            ptasks.push((n, d));
+        }
+    }
+    let npairs = AtomicU64::new(0);
+    pool::par_for(ptasks.len(), |ti| {
+        let (n, d) = ptasks[ti];
+        let mut q = Box::new(QRCode::default(n));
+        let mut bad: Option<(usize, String)> = None;
+        for i in 0..n * n - d {
+            let _ = render(&q); // all-light, remembered by a memoising renderer
+            q.data[i].set(true);
+            q.data[i + d].set(true);
+            npairs.fetch_add(1, Ordering::Relaxed);
+            match render(&q) {
+                Ok(text) => {
+                    if let Err(e) = check_text(&text, &|r, c| r * n + c == i || r * n + c == i + d, n) {
+                        if bad.is_none() {
+                            bad = Some((i, e));
+                        }
+                    }
+                }
+                Err(msg) => {
+                    if bad.is_none() {
+                        bad = Some((i, format!("to_str panicked: {}", msg)));
+                    }
+                }
+            }
+            q.data[i].set(false);
+            q.data[i + d].set(false);
+        }
+        if let Some((i, e)) = bad {
+            col.violation((3, ti as u64), "C16/two-modules-after-all-light".into(), format!("size {}: dark modules at flat indices {} and {} rendered right after the all-light matrix: {}", n, i, i + d, e), json!({"kind": "term-pair", "size": n, "index": i, "distance": d}));
+        }
+    });
+    col.evals_add(npairs.load(Ordering::Relaxed));
+    col.space(json!({"name": "two-module toggles after all-light", "cases": npairs.load(Ordering::Relaxed), "what": format!("versions {:?}: two dark modules at flat distance d in {{1,2,7,8,9,16,32,64,n-1,n,n+1,2n,8n}} at every position, each rendered right after the all-light matrix on the same thread", pair_versions), "exhaustive": true, "wall_s": (t3.elapsed().as_secs_f64() * 100.0).round() / 100.0}));
     col.sample(json!({"space": "single-module basis", "size": 21, "row": 0, "col": 0, "polarity": "dark on light"}));
     col.sample(json!({"space": "single-module basis", "size": 177, "row": 176, "col": 176, "polarity": "light on dark"}));
     col
